@@ -73,8 +73,12 @@ def pipeline(job):
     series, off = [], 0
     for T in Ts:
         a = cells[off:off + T * N].reshape(T, N).astype(in_dtype)
-        if rng.random() < 0.3:
+        lay = rng.random()
+        if lay < 0.25:
             a = np.asfortranarray(a)
+        elif lay < 0.4:
+            big = np.asfortranarray(np.vstack([np.zeros((3, a.shape[1]), dtype=a.dtype), a]))
+            a = big[3:]                                      # row slice of a column-major table: neither C nor F contiguous
         if rng.random() < 0.3:
             a.setflags(write=False)
         series.append(a)
